@@ -61,6 +61,14 @@ RULES = [
     ("c_path", "dtw_best_path_isclose", "", "equivalent", "tie handling of the tolerance-based back-tracking: another optimal path"),
     ("c_bounds", "lb_keogh_euclidean", "if (i > imin_diff)", "equivalent", "at equality both branches give 0"),
     ("c_distance", None, "if (minj > l2)", "equivalent", "at equality the assignment is a no-op"),
+    ("c_affinity", "dtw_warping_paths_affinity_ndim", "settings->psi_1e == 0 && settings->psi_2e == 0", "outside-property", "psi-relaxation of the affinity matrix is not part of C18's quantifier (psi is always 0 there)"),
+    ("c_affinity", "dtw_best_path_affinity", "dtw_wps_loc(&p, rs, cs, l1, l2) - ri_width", "inconclusive-by-design", "the mutant hangs inside the C routine: only the wall-clock watchdog can see that, and a watchdog is never a verdict"),
+    ("c_bounds", None, "if (imax > l2)", "equivalent", "at equality the assignment is a no-op"),
+    ("c_bounds", None, "if (i > imin_diff)", "equivalent", "at equality both branches give 0"),
+    ("c_bounds", None, "if (l1 > l2)", "equivalent", "differs only for equal lengths, where both branches compute the same value"),
+    ("c_ed", None, "if (l1 > l2)", "equivalent", "differs only for equal lengths, where both branches compute the same sum"),
+    ("c_matrix", "dtw_distances_length", "", "dead-code", "branch for a block without rows/columns given although nb_series_r != nb_series_c: not reachable through the wrappers, which always pass the same collection twice"),
+    ("c_dba", None, "for (idx_t r=0; r<", "killed-by-C08", "functionally invisible (the extra index reads a cleared padding bit of the mask) but an out-of-bounds read of the mask when the number of series is a multiple of 8: ./check C08 quick reports it (run by hand; C08 is not run per mutant)"),
     ("c_wps", "dtw_wps_loc", "for (; ci<max_ci; ci++)", "equivalent", "differs only for a column outside the band (the routine then warns instead)"),
     ("c_wps", "dtw_expand_wps_slice", "if (rbs < p.ri2)", "equivalent", "at equality the guarded loop is empty"),
 ]
